@@ -12,6 +12,75 @@ import (
 // searches for, regenerated from the Go source on every run (lean/Rare/Gen/C12.lean).
 // Props/C12.lean proves `gen_pool_sizing` about these definitions, so a changed sizing
 // expression or needle breaks a proof.
+//
+// Round 3: the shape of CompileEx itself – every `strings.*Index*` search with its function name and
+// needle (string or char literal), every slice expression and every branch condition (if / else if /
+// switch case), printed in source order (`compileSearches`, `compileSlices`, `compileConds`).
+// `compile_code_matches_source` pins them to what `compileStep` of the model mirrors, so a search
+// for a different needle (or with a different function), a shifted slice bound or a changed branch
+// condition breaks a proof even when no generated input distinguishes the two.
+
+// c12Needle: a string or char literal as bytes.
+func c12Needle(e ast.Expr) ([]byte, bool) {
+	if s, ok := StringLit(e); ok {
+		return []byte(s), true
+	}
+	return nil, false
+}
+
+func c12Bytes(b []byte) string {
+	bs := make([]string, len(b))
+	for j := range b {
+		bs[j] = fmt.Sprint(b[j])
+	}
+	return "[" + strings.Join(bs, ", ") + "]"
+}
+
+// c12Shape emits compileSearches / compileSlices / compileConds for fd.
+func c12Shape(c *Ctx, fd *ast.FuncDecl, sb *strings.Builder) {
+	if fd == nil || fd.Body == nil {
+		sb.WriteString(untranslatable("compileSearches") + "\n")
+		sb.WriteString(untranslatable("compileSlices") + "\n")
+		sb.WriteString(untranslatable("compileConds") + "\n")
+		return
+	}
+	var searches, slices, conds []string
+	okSearch := true
+	ast.Inspect(fd.Body, func(n ast.Node) bool {
+		switch x := n.(type) {
+		case *ast.CallExpr:
+			if s, ok := x.Fun.(*ast.SelectorExpr); ok && strings.Contains(s.Sel.Name, "Index") && len(x.Args) > 0 {
+				nd, isLit := c12Needle(x.Args[len(x.Args)-1])
+				okSearch = okSearch && isLit
+				searches = append(searches, fmt.Sprintf("(%s, %s)", leanStr(c.Print(x.Fun)), c12Bytes(nd)))
+			}
+		case *ast.SliceExpr:
+			slices = append(slices, c.Print(x))
+		case *ast.IfStmt:
+			cond := c.Print(x.Cond)
+			if x.Init != nil {
+				cond = c.Print(x.Init) + "; " + cond
+			}
+			conds = append(conds, cond)
+		case *ast.CaseClause:
+			for _, e := range x.List {
+				conds = append(conds, c.Print(e))
+			}
+		case *ast.ForStmt:
+			if x.Cond != nil {
+				conds = append(conds, c.Print(x.Cond))
+			}
+		}
+		return true
+	})
+	if okSearch {
+		fmt.Fprintf(sb, "def compileSearches : List (String × List UInt8) := [%s]\n\n", strings.Join(searches, ", "))
+	} else {
+		sb.WriteString(untranslatable("compileSearches") + "\n")
+	}
+	fmt.Fprintf(sb, "def compileSlices : List String := %s\n\n", leanStrList(slices))
+	fmt.Fprintf(sb, "def compileConds : List String := %s\n\n", leanStrList(conds))
+}
 
 // c12Arith translates an int expression over `s.groupCount`, literals, + and * to Lean (Nat).
 func c12Arith(e ast.Expr) (string, bool) {
@@ -105,6 +174,7 @@ func init() {
 		} else {
 			sb.WriteString(untranslatable("compileNeedles") + "\n")
 		}
+		c12Shape(c, c.Func(file, "CompileEx"), &sb)
 		sb.WriteString("end Rare.Gen.C12\n")
 		return sb.String()
 	})
